@@ -7,6 +7,10 @@ import TantivyModel.Proofs.Store.Channel
 import TantivyModel.Model.Store.Version
 import TantivyModel.Proofs.Store.VInt32
 import TantivyModel.Model.Store.JsonNumber
+import TantivyModel.Proofs.Store.DocPath
+import TantivyModel.Proofs.Store.Framing
+import TantivyModel.Proofs.Store.WriterBound
+import TantivyModel.Model.Store.Utf8
 /-!
 # C09 — Stored documents are returned exactly as they were added
 
@@ -68,6 +72,19 @@ theorem C09_serialized_doc_nonempty (isStored : BitVec 32 → Bool) (doc : List 
     serializeDoc isStored doc ≠ [] :=
   encStoredDoc_ne_nil _
 
+/-! ### the UTF-8 check of `read_to_string` -/
+
+/-- with the UTF-8 check the real deserializer performs on every string it reads, a stored document
+comes back exactly iff all its strings (texts, facets, object keys) are UTF-8 — which every
+document added through the API satisfies (`String` / `&str` values); otherwise it is rejected, never
+altered -/
+theorem C09_strict_decode (d : StoredDoc) (trailing : Bytes) :
+    deserializeDocStrict (encStoredDoc d ++ trailing)
+      = if d.all (fun fv => stringsValid fv.2) then some d else none := by
+  unfold deserializeDocStrict
+  rw [deserialize_encStoredDoc]
+  rfl
+
 /-! ### `TantivyDocument` (CompactDoc): length-prefixed values in `node_data` -/
 
 /-- `serialize_vint_u32` (the unrolled threshold ladder, extracted with its comparison operators and
@@ -116,6 +133,62 @@ theorem C09_json_number_injective (a b : Int)
   constructor
   · split at h <;> split at h <;> simp at h <;> first | exact h | omega
   · split <;> simp
+
+/-! ### `TantivyDocument` (CompactDoc): values, address tables, and the whole path of a value -/
+
+/-- A value of any shape (every leaf type, arrays and objects with their address tables, any nesting)
+added to a `CompactDoc` — after whatever `node` already holds, before whatever is added later
+(`ext`) — is read back exactly by `get_ref_value` and the array / object iterators. Bounded only by
+the `u32` addresses (`node_data` below 4 GiB). -/
+theorem C09_compact_doc_value_roundtrip (v : StoredValue) (node ext : Bytes) (fuel : Nat)
+    (hf : depthV v ≤ fuel) (hb : (cdAdd node v).1.length < 4294967296) :
+    cdRead fuel ((cdAdd node v).1 ++ ext) (cdAdd node v).2 = some v :=
+  cdRead_add v node ext fuel hf hb
+
+/-- A whole `TantivyDocument`: the (field, value) pairs added with `add_field_value`, several per
+field, in any order, come back from `field_values()` exactly and in order -/
+theorem C09_compact_doc_roundtrip (fvs : List (BitVec 32 × StoredValue)) (node ext : Bytes) (fuel : Nat)
+    (hf : ∀ fv ∈ fvs, depthV fv.2 ≤ fuel) (hb : (cdAddDoc node fvs).1.length < 4294967296) :
+    cdReadDoc fuel ((cdAddDoc node fvs).1 ++ ext) (cdAddDoc node fvs).2 = some fvs :=
+  cdReadDoc_add fvs node ext fuel hf hb
+
+/-- The whole path of one value: what the user adds (`v`, in-memory reading) is what the document
+returns before it is stored; `serialize_value` writes `memToDisk v`; the store codec returns exactly
+those bytes' value; `deserialize` turns it back into `v` (floats: `u64_to_f64 ∘ f64_to_u64 = id`,
+both extracted); and the rebuilt `TantivyDocument` returns `v` again. -/
+theorem C09_document_value_path (v : StoredValue) (fuel : Nat) (hf : depthV v ≤ fuel)
+    (hb : (cdAdd [] v).1.length < 4294967296) (rest : Bytes) :
+    cdRead fuel (cdAdd [] v).1 (cdAdd [] v).2 = some v ∧
+    (decodeValue (encValue (memToDisk v) ++ rest)).map (fun r => diskToMem r.1) = some v ∧
+    cdRead fuel (cdAdd [] (diskToMem (memToDisk v))).1 (cdAdd [] (diskToMem (memToDisk v))).2 = some v := by
+  have h1 := cdRead_add v [] [] fuel hf hb
+  simp only [List.append_nil] at h1
+  refine ⟨h1, ?_, ?_⟩
+  · rw [decodeValue_enc]; simp [diskToMem_memToDisk]
+  · rw [diskToMem_memToDisk]; exact h1
+
+/-- The whole path of a document (stored fields): the `TantivyDocument` returns what was added;
+`serialize_doc` writes the on-disk reading of each value; the store codec reads it back; the
+deserializer rebuilds a `TantivyDocument` that again returns exactly the values added, in order.
+Composed with `C09_store_get` (bytes in = bytes out for every block size / codec / document size)
+this is `Searcher::doc (add doc) = doc` on the model, end to end. -/
+theorem C09_document_path (fvs : List (BitVec 32 × StoredValue)) (fuel : Nat)
+    (hf : ∀ fv ∈ fvs, depthV fv.2 ≤ fuel) (hb : (cdAddDoc [] fvs).1.length < 4294967296)
+    (trailing : Bytes) :
+    let onDisk : StoredDoc := fvs.map fun fv => (fv.1, memToDisk fv.2)
+    cdReadDoc fuel (cdAddDoc [] fvs).1 (cdAddDoc [] fvs).2 = some fvs ∧
+    (deserializeDoc (encStoredDoc onDisk ++ trailing)).map (fun d => d.map fun fv => (fv.1, diskToMem fv.2))
+      = some fvs := by
+  intro onDisk
+  have h1 := cdReadDoc_add fvs [] [] fuel hf hb
+  simp only [List.append_nil] at h1
+  refine ⟨h1, ?_⟩
+  rw [deserialize_encStoredDoc]
+  simp only [Option.map_some, Option.some.injEq, onDisk, List.map_map]
+  conv => rhs; rw [← List.map_id fvs]
+  apply List.map_congr_left
+  intro fv _
+  simp [diskToMem_memToDisk]
 
 /-! ### skip index -/
 
@@ -206,6 +279,126 @@ theorem C09_store_get_doc (C : Compression) (hC : GoodCompression C) (bs : Nat) 
     obtain ⟨a, ha, rfl⟩ := List.mem_map.mp hd
     exact ⟨C09_serialized_doc_nonempty isStored a, hfit a ha⟩
 
+/-- End to end on the model: documents (their stored field values, in-memory reading, any shapes)
+are added — each serialized by `serialize_doc`, appended to the store with any block size and codec —
+and fetched by doc id: the deserialized document, handed back to a `TantivyDocument`, is exactly
+the list of (field, value) pairs that was added, for every document id. -/
+theorem C09_add_then_fetch (C : Compression) (hC : GoodCompression C) (bs : Nat) (hbs : bs < 4294967296)
+    (added : List (List (BitVec 32 × StoredValue))) (hne : added ≠ [])
+    (hfit : ∀ d ∈ added, bs + (encStoredDoc (docToDisk d)).length < 4294967296)
+    (i : Nat) (hi : i < added.length) :
+    ((getBytes C (writtenStore C Gen.STORE_INDEX_ENTRY_COST Gen.CHECKPOINT_PERIOD bs
+        (added.map fun d => encStoredDoc (docToDisk d))) i).bind deserializeDoc).map docToMem
+      = some added[i] := by
+  rw [C09_store_get C hC _ _ bs (by decide) (by decide) hbs _ (by simpa using hne)]
+  · simp only [List.getElem?_map, List.getElem?_eq_getElem hi, Option.map_some, Option.bind_some]
+    have := deserialize_encStoredDoc (docToDisk added[i]) []
+    rw [List.append_nil] at this
+    rw [this]
+    simp [docToMem_docToDisk]
+  · intro d hd
+    obtain ⟨a, ha, rfl⟩ := List.mem_map.mp hd
+    exact ⟨encStoredDoc_ne_nil _, hfit a ha⟩
+
+/-! ### lz4 / zstd: the length frame around the raw block codec -/
+
+/-- contract of the raw codec (`lz4_flex` block / `zstd::bulk`): given the announced output size it
+returns the block -/
+def RawGood (R : RawCodec) : Prop := ∀ b, R.dec b.length (R.enc b) = some b
+
+/-- the frame both `compression_lz4_block.rs` and `compression_zstd_block.rs` put around the raw
+codec (u32 LE uncompressed length, size check after decompression) round-trips every block below
+4 GiB and never produces an empty block (so block start offsets stay distinct cache keys) -/
+theorem C09_framed_block_roundtrip (R : RawCodec) (hR : RawGood R) (id : Nat) (b : Bytes)
+    (hb : b.length < 4294967296) :
+    (framed R id).decomp ((framed R id).comp b) = some b ∧ (framed R id).comp b ≠ [] :=
+  ⟨framed_roundtrip R hR id b hb, framed_nonempty R id b⟩
+
+/-- hence `get` on a store whose blocks are below 4 GiB, written with lz4 or zstd seen as a framed
+abstract codec: the documents, whatever the block sizes and the skip index shape. (That the
+writer's blocks stay below 4 GiB needs `5·block_size + doc_len` well below 2^32; stated as the
+hypothesis `hsmall` on the laid-out groups.) -/
+theorem C09_store_get_framed (R : RawCodec) (hR : RawGood R) (id P : Nat) (hP : 2 ≤ P)
+    (groups : List (List Bytes)) (cps : List Checkpoint) (sf : StoreFile)
+    (hl : Laid (framed R id) 0 0 groups cps sf.data) (hg : ∀ g ∈ groups, g ≠ [] ∧ Fits g)
+    (hsmall : ∀ g ∈ groups, blockLenOf (g.map List.length) < 4294967296) (hne : groups ≠ [])
+    (hidx : sf.index = finishedLayers P cps) (i : Nat) :
+    getBytes (framed R id) sf i = groups.flatten[i]? :=
+  getBytes_framed R hR id P hP groups cps sf.data hl hg hsmall hne sf rfl hidx i
+
+/-- … and the blocks the writer cuts are that small: with lz4 / zstd seen as a framed abstract codec,
+`get (write docs) i = docs[i]` for every block size and document size with
+`block_size + doc_len + K + 4 < 2^32` (`K ≥ 4` bytes of index estimate per document; the code has 8).
+This is `C09_store_get` for the compressors other than `none`, frame included. -/
+theorem C09_store_get_framed_written (R : RawCodec) (hR : RawGood R) (id K P bs M : Nat) (hK : 4 ≤ K)
+    (hP : 2 ≤ P) (docs : List Bytes) (hne : docs ≠ [])
+    (hall : ∀ d ∈ docs, d ≠ [] ∧ d.length ≤ M) (hsz : bs + M + K + 4 < 4294967296) (i : Nat) :
+    getBytes (framed R id) (writtenStore (framed R id) K P bs docs) i = docs[i]? := by
+  obtain ⟨groups, hflat, hl, hg, hbd⟩ := written_laidB (framed R id) K M (by omega) bs docs
+    (fun d hd => ⟨(hall d hd).1, (hall d hd).2, by have := (hall d hd).2; omega⟩) (by omega)
+  have hgne : groups ≠ [] := by intro h; rw [h] at hflat; exact hne hflat.symm
+  have := getBytes_framed R hR id P hP groups _ _ hl hg
+    (fun g hgm => by have := blockLen_le K hK g _ (hbd g hgm); omega) hgne
+    (writtenStore (framed R id) K P bs docs) rfl rfl i
+  rw [this, hflat]
+
+/-! ### sorted index: the temporary store is re-read in the order of the doc-id mapping -/
+
+/-- `SegmentWriter::finalize` with a doc-id mapping (`sort_by_field`): documents are first written to
+a temporary store (compressor none, its own block size `tbs`), then fetched one by one with
+`get_document_bytes(old_doc_id)` in the order of the mapping and written to the final store.
+Fetching document `i` of the final store returns the document the mapping names, for every
+mapping (any permutation, and any codec / block sizes of the two stores). -/
+theorem C09_sorted_remap (C : Compression) (hC : GoodCompression C) (K P tbs bs : Nat) (hK : 1 ≤ K) (hP : 2 ≤ P)
+    (htbs : tbs < 4294967296) (hbs : bs < 4294967296) (docs : List Bytes) (hne : docs ≠ [])
+    (hall : ∀ d ∈ docs, d ≠ [] ∧ tbs + d.length < 4294967296 ∧ bs + d.length < 4294967296)
+    (order : List Nat) (hord : ∀ o ∈ order, o < docs.length) (hone : order ≠ []) :
+    let temp := writtenStore Compression.none K P tbs docs
+    ∃ picked, order.mapM (getBytes Compression.none temp) = some picked ∧
+      picked = order.map (fun o => docs[o]?.getD []) ∧
+      ∀ i, getBytes C (writtenStore C K P bs picked) i = (order[i]?).bind fun o => docs[o]? := by
+  intro temp
+  have hget : ∀ o, getBytes Compression.none temp o = docs[o]? := fun o =>
+    C09_store_get Compression.none ⟨fun _ => rfl, fun _ h => h⟩ K P tbs hK hP htbs docs hne
+      (fun d hd => ⟨(hall d hd).1, (hall d hd).2.1⟩) o
+  have hmap : ∀ (l : List Nat), (∀ o ∈ l, o < docs.length) →
+      l.mapM (getBytes Compression.none temp) = some (l.map fun o => docs[o]?.getD []) := by
+    intro l
+    induction l with
+    | nil => intro _; rfl
+    | cons o os ih =>
+      intro h
+      have ho := h o (List.mem_cons_self ..)
+      rw [List.mapM_cons, hget o, ih (fun x hx => h x (List.mem_cons_of_mem _ hx))]
+      simp [List.getElem?_eq_getElem ho]
+  refine ⟨_, hmap order hord, rfl, ?_⟩
+  intro i
+  have hp : ∀ d ∈ order.map (fun o => docs[o]?.getD []), d ≠ [] ∧ bs + d.length < 4294967296 := by
+    intro d hd
+    obtain ⟨o, ho, rfl⟩ := List.mem_map.mp hd
+    have hlt := hord o ho
+    rw [List.getElem?_eq_getElem hlt]
+    have := hall docs[o] (List.getElem_mem hlt)
+    exact ⟨this.1, this.2.2⟩
+  rw [C09_store_get C hC K P bs hK hP hbs _ (by simpa using hone) hp i]
+  simp only [List.getElem?_map]
+  cases ho : order[i]? with
+  | none => rfl
+  | some o =>
+    have hlt := hord o (List.mem_of_getElem? ho)
+    simp [List.getElem?_eq_getElem hlt]
+
+/-- the instance the code uses: temporary store with the extracted block size, compressor none -/
+theorem C09_sorted_remap_extracted (C : Compression) (hC : GoodCompression C) (bs : Nat) (hbs : bs < 4294967296)
+    (docs : List Bytes) (hne : docs ≠ [])
+    (hall : ∀ d ∈ docs, d ≠ [] ∧ Gen.TEMP_STORE_BLOCKSIZE + d.length < 4294967296 ∧ bs + d.length < 4294967296)
+    (order : List Nat) (hord : ∀ o ∈ order, o < docs.length) (hone : order ≠ []) (i : Nat) :
+    getBytes C (writtenStore C Gen.STORE_INDEX_ENTRY_COST Gen.CHECKPOINT_PERIOD bs
+        (order.map fun o => docs[o]?.getD [])) i = (order[i]?).bind fun o => docs[o]? := by
+  obtain ⟨picked, _, hp, hget⟩ := C09_sorted_remap C hC Gen.STORE_INDEX_ENTRY_COST Gen.CHECKPOINT_PERIOD
+    Gen.TEMP_STORE_BLOCKSIZE bs (by decide) (by decide) (by decide) hbs docs hne hall order hord hone
+  rw [← hp]; exact hget i
+
 /-! ### dedicated compressor thread -/
 
 /-- `docstore_compress_dedicated_thread = true`: for every interleaving of the producer's sends and
@@ -239,6 +432,26 @@ theorem C09_cache_transparent_written (C : Compression) (hC : GoodCompression C)
   apply List.map_congr_left
   intro i _
   exact holds_get C hC.roundtrip P hP sf docs hne h i
+
+/-- `iter_raw` reads its blocks through the same cache (`read_block`): for every store the writer
+or a merge produces, every mix of fetches and iterations (with any alive bitsets) on one reader,
+in any order and with any cache capacity, returns exactly what the uncached reads return -/
+theorem C09_cache_transparent_get_and_iter (C : Compression) (hC : GoodCompression C) (P : Nat) (hP : 2 ≤ P)
+    (sf : StoreFile) (docs : List Bytes) (hne : docs ≠ []) (h : Holds C P sf docs)
+    (cap : Nat) (ops : List ReaderOp) :
+    (runOps C sf (BlockCache.new cap) ops).1 = ops.map (ReaderOp.plain C sf) :=
+  holds_runOps C hC.nonempty P hP sf docs hne h cap ops
+
+/-- the LRU holds at most `cache_num_blocks` decompressed blocks and never the same block twice,
+after any sequence of fetches (so `CacheStats::num_entries ≤ capacity`, and capacity 0 caches
+nothing) -/
+theorem C09_cache_bounded (C : Compression) (sf : StoreFile) (cap : Nat) (accesses : List Nat) :
+    let c := (runGets C sf (BlockCache.new cap) accesses).2
+    c.entries.length ≤ cap ∧ (c.entries.map (·.1)).Nodup := by
+  obtain ⟨h1, h2⟩ := runGets_sized C sf accesses (BlockCache.new cap) (cacheSized_new cap)
+  have hcap : (BlockCache.new cap).cap = cap := rfl
+  rw [hcap] at h2
+  exact ⟨by have := h1.1; rw [h2] at this; exact this, h1.2⟩
 
 /-- a cache keyed by something that does not determine the block is *not* transparent: two
 checkpoints with the same key and different blocks (the state a wrong key after stacking would
@@ -290,6 +503,139 @@ theorem C09_merge_store (C : Compression) (hC : GoodCompression C) (K P minBlock
   have hh : Holds C P merged live := ⟨groups, _, hd, hl, hg, rfl⟩
   exact ⟨hh, fun hne i => holds_get C hC.roundtrip P hP merged live hne hh i⟩
 
+/-- The stacking decision itself (the three clauses and the comparison operator of the codec clause
+are extracted from `write_storable_fields`): raw blocks are stacked only if the source has no
+deletes, has at least `minBlocks` blocks, and its decompressor is the writer's compressor. Hence a
+block written with one codec is never copied verbatim into a store read with another, for every
+pair of codecs (`C09_merge_store` needs nothing else about them). -/
+theorem C09_stack_only_same_codec (C : Compression) (minBlocks : Nat) (s : SourceSegment)
+    (h : mustCopy C minBlocks s = false) :
+    s.hasDeletes = false ∧ minBlocks ≤ ((checkpointsOf s.store.index).take (minBlocks + 1)).length ∧
+      s.store.decompId = C.id :=
+  mustCopy_false C minBlocks s h
+
+/-- and conversely a source with another decompressor id is always copied document by document
+(decompressed with its own codec, recompressed with the writer's) -/
+theorem C09_other_codec_is_copied (C : Compression) (minBlocks : Nat) (s : SourceSegment)
+    (h : s.store.decompId ≠ C.id) : mustCopy C minBlocks s = true := by
+  cases hm : mustCopy C minBlocks s with
+  | true => rfl
+  | false => exact absurd (mustCopy_false C minBlocks s hm).2.2 h
+
+/-- `StoreWriter::stack` (public API) on its own: after any documents already written, stacking a
+whole source store of the same codec appends exactly the source's documents — the writer's pending
+block is flushed first, doc and byte ranges of the copied checkpoints are shifted — and writing can
+continue afterwards. -/
+theorem C09_stack_appends (C : Compression) (hC : GoodCompression C) (K P bs : Nat) (hK : 1 ≤ K) (hP : 2 ≤ P)
+    (hbs : bs < 4294967296) (before after : List Bytes)
+    (hdocs : ∀ d ∈ before ++ after, d ≠ [] ∧ bs + d.length < 4294967296)
+    (src : StoreFile) (srcDocs : List Bytes) (hne : srcDocs ≠ []) (hsrc : Holds C P src srcDocs) :
+    let w0 := before.foldl (Writer.storeBytes C K) (Writer.new bs)
+    let w1 := w0.stack C src.data (checkpointsOf src.index)
+    let w2 := after.foldl (Writer.storeBytes C K) w1
+    let out : StoreFile :=
+      { data := (w2.sendBlock C).written, index := finishedLayers P (w2.sendBlock C).checkpoints,
+        decompId := C.id, version := Gen.DOC_STORE_VERSION }
+    Holds C P out (before ++ srcDocs ++ after) ∧ ∀ i, getBytes C out i = (before ++ srcDocs ++ after)[i]? := by
+  intro w0 w1 w2 out
+  obtain ⟨h0, b0⟩ := winv_fold C K hK before (Writer.new bs) []
+    (fun d hd => hdocs d (List.mem_append_left _ hd)) (winv_new C K bs)
+  simp only [List.nil_append] at h0
+  have hb0 : w0.blockSize = bs := b0
+  obtain ⟨h1, b1⟩ := winv_stack C K P hK hP w0 before (by rw [hb0]; exact hbs) h0 src srcDocs hne hsrc
+  have hb1 : w1.blockSize = bs := by show (w0.stack C src.data (checkpointsOf src.index)).blockSize = bs; rw [b1, hb0]
+  obtain ⟨h2, b2⟩ := winv_fold C K hK after w1 (before ++ srcDocs)
+    (fun d hd => by rw [hb1]; exact hdocs d (List.mem_append_right _ hd)) h1
+  have hb2 : w2.blockSize = bs := by show (after.foldl (Writer.storeBytes C K) w1).blockSize = bs; rw [b2, hb1]
+  obtain ⟨groups, hd, hl, hg, _⟩ := winv_flush C K hK w2 _ (by rw [hb2]; exact hbs) h2
+  have hh : Holds C P out (before ++ srcDocs ++ after) := ⟨groups, _, hd, hl, hg, rfl⟩
+  have hne' : before ++ srcDocs ++ after ≠ [] := by
+    cases srcDocs with
+    | nil => exact absurd rfl hne
+    | cons x xs => simp
+  exact ⟨hh, fun i => holds_get C hC.roundtrip P hP out _ hne' hh i⟩
+
+/-- "before and after merges", repeatedly: a merged store is again a legitimate source (it holds its
+documents, nothing is deleted in it yet), so every theorem above applies to the next merge -/
+theorem C09_merged_store_is_a_source (C : Compression) (hC : GoodCompression C) (P bs : Nat)
+    (merged : StoreFile) (live : List Bytes) (hne : live ≠ []) (hholds : Holds C P merged live)
+    (hdocs : ∀ d ∈ live, d ≠ [] ∧ bs + d.length < 4294967296) (own : Option (Nat → Bool)) :
+    SegOK C P bs (SourceSegment.ofReader merged C own none live.length) live :=
+  segOK_ofReader C P bs merged C own none live hholds hC.roundtrip hne hdocs (fun _ => rfl)
+
+/-- Stored fields stay aligned with doc ids across a merge: the live document `j` of the `k`-th source
+gets the new doc id `base + rank`, where `base` is the number of live documents of the sources
+before it and `rank` the number of live documents before `j` in its own segment (this is the id
+the postings / fast fields of the merged segment use), and fetching that id from the merged store
+returns exactly that document — on the copy path and on the stacking path. -/
+theorem C09_merged_doc_address (C : Compression) (hC : GoodCompression C) (K P minBlocks bs : Nat) (hK : 1 ≤ K)
+    (hP : 2 ≤ P) (hbs : bs < 4294967296) (segs : List (SourceSegment × List Bytes))
+    (hsegs : ∀ p ∈ segs, SegOK C P bs p.1 p.2)
+    (k j : Nat) (s : SourceSegment) (docs : List Bytes) (hk : segs[k]? = some (s, docs))
+    (hj : j < docs.length) (halive : s.alive j = true) :
+    ∃ w, (segs.map (·.1)).foldl (mergeStep C K minBlocks) (some (Writer.new bs)) = some w ∧
+      let merged : StoreFile :=
+        { data := (w.sendBlock C).written, index := finishedLayers P (w.sendBlock C).checkpoints,
+          decompId := C.id, version := Gen.DOC_STORE_VERSION }
+      let base := (((segs.take k).map fun p => liveDocs p.1.alive 0 p.2).flatten).length
+      getBytes C merged (base + numAlive s.alive j) = docs[j]? := by
+  obtain ⟨w, e, _, _, hget⟩ := C09_merge_store C hC K P minBlocks bs hK hP hbs segs hsegs
+  refine ⟨w, e, ?_⟩
+  intro merged base
+  have hrank := liveDocs_rank s.alive docs 0 j hj (by simpa using halive)
+  simp only [Nat.zero_add] at hrank
+  have hlt : numAlive s.alive j < (liveDocs s.alive 0 docs).length := by
+    have : (liveDocs s.alive 0 docs)[numAlive s.alive j]? = some docs[j] := by
+      unfold numAlive; rw [hrank, List.getElem?_eq_getElem hj]
+    exact (List.getElem?_eq_some_iff.mp this).1
+  have hkk : (segs.map fun p => liveDocs p.1.alive 0 p.2)[k]? = some (liveDocs s.alive 0 docs) := by
+    rw [List.getElem?_map, hk]; rfl
+  have hflat := flatten_getElem_at (segs.map fun p => liveDocs p.1.alive 0 p.2) k (numAlive s.alive j) _ hkk hlt
+  have hlive : (segs.map fun p => liveDocs p.1.alive 0 p.2).flatten ≠ [] := by
+    intro h0
+    rw [h0] at hflat
+    have : (liveDocs s.alive 0 docs)[numAlive s.alive j]? = some docs[j] := by
+      unfold numAlive; rw [hrank, List.getElem?_eq_getElem hj]
+    simp [this] at hflat
+  have hbase : base = ((segs.map fun p => liveDocs p.1.alive 0 p.2).take k).flatten.length := by
+    simp only [base, List.map_take]
+  rw [hget hlive, hbase, hflat]
+  unfold numAlive
+  exact hrank
+
+/-- Filtered merges (`merge_filtered_segments`, `IndexMerger::open_with_custom_alive_set`): each source
+is presented with the intersection of its own deletes and the caller's filter, and `has_deletes()`
+is computed on that intersection (`max_doc − num_alive > 0`). The merged store then holds exactly
+the documents alive in both sets, in order — whether a source is copied or stacked; in particular a
+source that only the caller's filter thins out is never stacked. Nothing about deletes is assumed:
+the `noDeletes` premise of `C09_merge_store` is derived from how `has_deletes()` is computed. -/
+theorem C09_merge_filtered (C : Compression) (hC : GoodCompression C) (K P minBlocks bs : Nat) (hK : 1 ≤ K)
+    (hP : 2 ≤ P) (hbs : bs < 4294967296)
+    (srcs : List (StoreFile × Compression × Option (Nat → Bool) × Option (Nat → Bool) × List Bytes))
+    (hsrc : ∀ s ∈ srcs, Holds s.2.1 P s.1 s.2.2.2.2 ∧ (∀ b, s.2.1.decomp (s.2.1.comp b) = some b) ∧
+      s.2.2.2.2 ≠ [] ∧ (∀ d ∈ s.2.2.2.2, d ≠ [] ∧ bs + d.length < 4294967296) ∧
+      (s.1.decompId = C.id → s.2.1 = C)) :
+    let segs := srcs.map fun s =>
+      (SourceSegment.ofReader s.1 s.2.1 s.2.2.1 s.2.2.2.1 s.2.2.2.2.length, s.2.2.2.2)
+    let live := (srcs.map fun s => liveDocs (intersectAlive s.2.2.1 s.2.2.2.1) 0 s.2.2.2.2).flatten
+    ∃ w, (segs.map (·.1)).foldl (mergeStep C K minBlocks) (some (Writer.new bs)) = some w ∧
+      let merged : StoreFile :=
+        { data := (w.sendBlock C).written, index := finishedLayers P (w.sendBlock C).checkpoints,
+          decompId := C.id, version := Gen.DOC_STORE_VERSION }
+      Holds C P merged live ∧ (live ≠ [] → ∀ i, getBytes C merged i = live[i]?) := by
+  intro segs live
+  have hseg : ∀ p ∈ segs, SegOK C P bs p.1 p.2 := by
+    intro p hp
+    obtain ⟨s, hs, rfl⟩ := List.mem_map.mp hp
+    obtain ⟨h1, h2, h3, h4, h5⟩ := hsrc s hs
+    exact segOK_ofReader C P bs s.1 s.2.1 s.2.2.1 s.2.2.2.1 s.2.2.2.2 h1 h2 h3 h4 h5
+  obtain ⟨w, e, _, hh⟩ := C09_merge_store C hC K P minBlocks bs hK hP hbs segs hseg
+  refine ⟨w, e, ?_⟩
+  have hl : (segs.map fun p => liveDocs p.1.alive 0 p.2).flatten = live := by
+    simp only [segs, live, List.map_map]
+    rfl
+  simpa [hl] using hh
+
 /-- The third path of `write_storable_fields` (non-trivial doc-id mapping, i.e. a sorted index):
 taking, for each entry of the mapping, the next live document of the named segment writes a store
 that holds exactly the picked documents in mapping (= new doc id) order. `its` are the segments'
@@ -311,6 +657,37 @@ theorem C09_merge_mapped (C : Compression) (hC : GoodCompression C) (K P bs : Na
   intro merged
   have hh : Holds C P merged picked := ⟨groups, _, hd, hl, hg, rfl⟩
   exact ⟨hh, fun hne i => holds_get C hC.roundtrip P hP merged picked hne hh i⟩
+
+/-- The mapped merge reads its documents from the sources' stores: with `its` the live documents
+that `iter_raw(alive_bitset)` yields for stores that hold `docs_s` (`C09_iter_live_in_order`), the
+iterators the merger consumes are exactly `liveDocs alive_s 0 docs_s`, so `C09_merge_mapped`
+applies to them: the merged store holds the documents picked by the mapping. -/
+theorem C09_merge_mapped_from_stores (C : Compression) (hC : GoodCompression C) (K P bs : Nat) (hK : 1 ≤ K)
+    (hP : 2 ≤ P) (hbs : bs < 4294967296)
+    (srcs : List (StoreFile × Compression × (Nat → Bool) × List Bytes))
+    (hsrc : ∀ s ∈ srcs, Holds s.2.1 P s.1 s.2.2.2 ∧ (∀ b, s.2.1.decomp (s.2.1.comp b) = some b) ∧ s.2.2.2 ≠ [] ∧
+      (∀ d ∈ s.2.2.2, d ≠ [] ∧ bs + d.length < 4294967296))
+    (order : List Nat) (picked : List Bytes)
+    (hp : pickDocs (srcs.map fun s => liveDocs s.2.2.1 0 s.2.2.2) order = some picked) :
+    (srcs.map fun s => iterRaw s.2.1 s.1 s.2.2.1) = (srcs.map fun s => (liveDocs s.2.2.1 0 s.2.2.2).map some) ∧
+    ∃ w, mergeMapped C K (Writer.new bs) (srcs.map fun s => iterRaw s.2.1 s.1 s.2.2.1) order = some w ∧
+      Holds C P { data := (w.sendBlock C).written, index := finishedLayers P (w.sendBlock C).checkpoints,
+                  decompId := C.id, version := Gen.DOC_STORE_VERSION } picked := by
+  have hit : (srcs.map fun s => iterRaw s.2.1 s.1 s.2.2.1)
+      = (srcs.map fun s => (liveDocs s.2.2.1 0 s.2.2.2).map some) := by
+    apply List.map_congr_left
+    intro s hs
+    obtain ⟨h1, h2, h3, _⟩ := hsrc s hs
+    exact holds_iter s.2.1 h2 P hP s.1 s.2.2.2 h3 h1 s.2.2.1
+  refine ⟨hit, ?_⟩
+  have hall : ∀ l ∈ (srcs.map fun s => liveDocs s.2.2.1 0 s.2.2.2), ∀ d ∈ l, d ≠ [] ∧ bs + d.length < 4294967296 := by
+    intro l hl d hd
+    obtain ⟨s, hs, rfl⟩ := List.mem_map.mp hl
+    exact (hsrc s hs).2.2.2 d (liveDocs_sub _ _ _ d hd)
+  obtain ⟨w, e, hh, _⟩ := C09_merge_mapped C hC K P bs hK hP hbs _ order picked hp hall
+  refine ⟨w, ?_, hh⟩
+  rw [hit, ← e, List.map_map]
+  rfl
 
 /-- stacking is only correct under its guard: stacking a source in which document 0 is deleted
 keeps that document (the per-document path would drop it) -/
@@ -428,5 +805,82 @@ example : readU32Vint ([0, 0, 0, 129, 7] : Bytes) = some (2097152, 4) := by deci
 example : jsonNumber 9223372036854775808 = some (.uint64 9223372036854775808) := by decide
 example : jsonNumber (-1) = some (.int64 (-1)) := by decide
 example : jsonNumberWith [0, 2, 1] 18446744073709551615 = some .float := by decide
+
+/-- a source written with another codec (id 1) than the writer's (id 0): copied, not stacked -/
+example : mustCopy Compression.none 6
+    { store := { (writtenStore Compression.none 8 8 100 [[1]]) with decompId := 1 }, codec := Compression.none,
+      alive := fun _ => true, hasDeletes := false } = true :=
+  C09_other_codec_is_copied _ _ _ (by decide)
+
+/-- an object holding an array, a float and a nested empty object, added after 3 unrelated bytes -/
+def exampleNested : StoredValue :=
+  .object [([107], .array [.null, .str [97], .f64 5, .bool true]), ([], .object []), ([120], .ip 7)]
+
+example : depthV exampleNested ≤ 3 ∧ (cdAdd [9, 9, 9] exampleNested).1.length < 4294967296 := by decide +kernel
+example : cdRead 3 ((cdAdd [9, 9, 9] exampleNested).1 ++ [1, 2]) (cdAdd [9, 9, 9] exampleNested).2
+    = some exampleNested := C09_compact_doc_value_roundtrip _ _ _ _ (by decide +kernel) (by decide +kernel)
+
+example : cdReadDoc 3 (cdAddDoc [] [(0, .str [104]), (4, exampleNested), (0, .u64 9)]).1
+    (cdAddDoc [] [(0, .str [104]), (4, exampleNested), (0, .u64 9)]).2
+    = some [(0, .str [104]), (4, exampleNested), (0, .u64 9)] := by
+  have := C09_compact_doc_roundtrip [(0, .str [104]), (4, exampleNested), (0, .u64 9)] [] [] 3
+    (by decide +kernel) (by decide +kernel)
+  simpa using this
+
+/-- a raw codec satisfying the contract (identity), and a framed block -/
+example : RawGood { enc := fun b => b, dec := fun _ b => some b } := fun _ => rfl
+example : (framed { enc := fun b => b, dec := fun _ b => some b } 1).comp [7, 8] = [2, 0, 0, 0, 7, 8] := by decide
+example : blockLenOf [3, 5] = 20 := by decide
+
+example : (deserializeDoc (encStoredDoc ([(0, StoredValue.f64 5)].map fun fv => (fv.1, memToDisk fv.2)))).map
+    (fun d => d.map fun fv => (fv.1, diskToMem fv.2)) = some [(0, .f64 5)] := by
+  have := (C09_document_path [(0, .f64 5)] 1 (by decide) (by decide +kernel) []).2
+  simpa using this
+
+/-- a descending sort of three documents through a temporary store with 16 000-byte blocks -/
+example : ([2, 1, 0] : List Nat).mapM (getBytes Compression.none (writtenStore Compression.none 8 8 16000 [[1], [2, 2], [3]]))
+    = some [[3], [2, 2], [1]] := by decide +kernel
+
+example : ((getBytes Compression.none (writtenStore Compression.none Gen.STORE_INDEX_ENTRY_COST Gen.CHECKPOINT_PERIOD 16
+      ([[(0, StoredValue.f64 5)], [], [(2, .array [.null]), (0, .str [1])]].map fun d => encStoredDoc (docToDisk d))) 2).bind
+      deserializeDoc).map docToMem = some [(2, .array [.null]), (0, .str [1])] :=
+  C09_add_then_fetch Compression.none ⟨fun _ => rfl, fun _ h => h⟩ 16 (by decide) _ (by decide)
+    (by decide +kernel) 2 (by decide)
+
+/-- iterate, fetch, iterate with deletes, through a one-block cache over a three-block store -/
+example : (runOps Compression.none (writtenStore Compression.none 8 8 9 [[1], [2, 3, 4, 5, 6, 7, 8, 9, 10, 11, 12], [13, 14]])
+    (BlockCache.new 1) [.iter [], .get 2, .iter [false, true, true], .get 0]).1
+    = [[some [1], some [2, 3, 4, 5, 6, 7, 8, 9, 10, 11, 12], some [13, 14]], [some [13, 14]],
+       [some [2, 3, 4, 5, 6, 7, 8, 9, 10, 11, 12], some [13, 14]], [some [1]]] := by decide +kernel
+
+/-- a segment without own deletes whose caller filter removes document 1: `has_deletes()` is true,
+so it is copied, not stacked -/
+example : (SourceSegment.ofReader (writtenStore Compression.none 8 8 100 [[1], [2], [3]]) Compression.none
+    none (some fun i => i != 1) 3).hasDeletes = true := by decide +kernel
+example : liveDocs (intersectAlive none (some fun i => i != 1)) 0 [[1], [2], [3]] = [[1], [3]] := by decide
+
+/-- capacity 1, three blocks visited: one entry stays -/
+example : (runGets Compression.none (writtenStore Compression.none 8 8 9 [[1], [2, 3, 4, 5, 6, 7, 8, 9, 10, 11, 12], [13, 14]])
+    (BlockCache.new 1) [0, 2, 0, 1]).2.entries.length = 1 := by decide +kernel
+
+/-- hypotheses of `C09_sorted_remap_extracted` on a concrete reversal -/
+example : ∀ d ∈ ([[1], [2, 2], [3]] : List Bytes), d ≠ [] ∧ Gen.TEMP_STORE_BLOCKSIZE + d.length < 4294967296
+    ∧ 16 + d.length < 4294967296 := by decide
+
+/-- hypotheses of `C09_merge_mapped_from_stores`: two stores, a mapping interleaving them -/
+example : pickDocs ([(fun (_ : Nat) => true, [[1], [2]]), (fun i => i != 0, [[3], [4]])].map
+    fun s => liveDocs s.1 0 s.2) [1, 0, 0] = some [[4], [1], [2]] := by decide
+
+/-- document 2 of a segment whose document 1 is deleted has rank 1 -/
+example : numAlive (fun i => i != 1) 2 = 1 ∧ (liveDocs (fun i => i != 1) 0 [[1], [2], [3]])[1]? = some [3] := by decide
+
+example : utf8Valid [0xE6, 0x97, 0xA5, 0x41, 0xF0, 0x9F, 0x99, 0x82] = true := by decide
+example : utf8Valid [0xC0, 0x80] = false ∧ utf8Valid [0xED, 0xA0, 0x80] = false
+    ∧ utf8Valid [0xF4, 0x90, 0x80, 0x80] = false ∧ utf8Valid [0xE6, 0x97] = false := by decide
+example : deserializeDocStrict (encStoredDoc [(0, .str [0xFF])]) = none := by decide +kernel
+
+/-- hypotheses of `C09_stack_appends`: one document before, a two-document source, one after -/
+example : Holds Compression.none 8 (writtenStore Compression.none 8 8 4 [[5], [6]]) [[5], [6]] :=
+  C09_written_holds Compression.none 8 8 4 (by decide) (by decide) _ (by decide)
 
 end TantivyModel.C09
